@@ -142,7 +142,14 @@ func (c *Client) Call(ctx context.Context, name string, args []interface{}) (res
 	clientContext := GetClientContext(ctx)
 	if request, err = c.Codec.Encode(name, args, clientContext); err == nil {
 		if response, err = c.Request(ctx, request); err == nil {
-			result, err = c.Codec.Decode(response, clientContext)
+			func() {
+				defer func() {
+					if p := recover(); p != nil {
+						result, err = nil, NewPanicError(p)
+					}
+				}()
+				result, err = c.Codec.Decode(response, clientContext)
+			}()
 		}
 	}
 	return
